@@ -40,3 +40,25 @@ Definition xstep (l : plog) (x : xop) : plog :=
 Definition xrun (l : plog) (xs : list xop) : plog := fold_left xstep xs l.
 
 Definition valid_xop (x : xop) : Prop := match x with XOp o => valid_op o | XRestart _ => True end.
+
+(* ---------- S3 keys and the listing RestoreFromS3 works from ---------- *)
+(* segmentPrefix() = path.Join(namespace, topic, "%d" partition) + "/" ;
+   segmentKey(base) = path.Join(namespace, topic, "%d" partition, "segment-%020d.kfs").
+   Names are taken as already clean path elements (no "/", ".", ".."; C22), base >= 0. *)
+From KS Require Import lib.Strings.
+Definition part_prefix (ns topic : bytes) (p : Z) : bytes :=
+  ns ++ slash :: topic ++ slash :: dec p ++ [slash].
+Definition pad20 (d : bytes) : bytes := repeat 48 (20 - length d) ++ d.
+Definition seg_key (ns topic : bytes) (p base : Z) : bytes :=
+  part_prefix ns topic p ++ (* "segment-" *) [115; 101; 103; 109; 101; 110; 116; 45] ++ pad20 (dec base) ++ [46; 107; 102; 115].
+
+Fixpoint has_prefix (pre k : bytes) : bool :=
+  match pre, k with
+  | [], _ => true
+  | x :: pre', y :: k' => (x =? y) && has_prefix pre' k'
+  | _ :: _, [] => false
+  end.
+
+(* S3 ListObjects with a prefix, over all the keys of the bucket *)
+Definition list_segments (all_keys : list bytes) (prefix : bytes) : list bytes :=
+  filter (has_prefix prefix) all_keys.
